@@ -204,6 +204,8 @@ def features(ast) -> tuple:
                                         f.add("break_multi")
                                         if last and (is_top or not tail_of_loop):
                                             f.add("break_multi_loop_last")
+                                        if last and tailpos:
+                                            f.add("break_multi_jobtail")
                                     if len(b.items) == 1 and last and (
                                             is_top or not tail_of_loop):
                                         f.add("empty_break_loop_last")
@@ -211,6 +213,8 @@ def features(ast) -> tuple:
                         f.add("break_in_nested")
                     if last and tail_of_loop:
                         f.add("break_loop_tail_of_loop")
+                        if tailpos:
+                            f.add("break_loop_tail_of_loop_jobtail")
                     if last and tail_via_fork:
                         f.add("break_loop_tail_of_fork_ending_loop")
                 if depth > 0 and not in_loop:
